@@ -27,6 +27,9 @@ def check(ck: Checker) -> None:
     _meta(ck)
     _hashinfo(ck)
     _keys(ck)
+    from . import round8 as _r8
+
+    _r8.db_writer_overwrites(ck, "C20.keys")
     _trie(ck)
     from .C17 import _loadonce
 
